@@ -136,10 +136,13 @@ structure Cfg where
   /-- pinned: value links are re-forged through the `value_receiver` setter, which pushes the
   value through `InputData.value` (refused while the owner runs); repaired: plain assignment -/
   pushLinks : Bool
+  /-- repaired: `Composite.__setstate__` keeps `_cached_inputs` (pinned: every re-adopted child calls
+  back `add_child`, which resets it "after graph change") -/
+  keepCache : Bool
   deriving DecidableEq, Repr
 
-def Cfg.pinned : Cfg := ⟨false, false, true⟩
-def Cfg.repaired : Cfg := ⟨true, true, false⟩
+def Cfg.pinned : Cfg := ⟨false, false, true, false⟩
+def Cfg.repaired : Cfg := ⟨true, true, false, true⟩
 
 /-! ## label tables -/
 
@@ -291,7 +294,7 @@ state whose children `cs` have already been set up -/
 def setstate (cfg : Cfg) (c : Core) (cs : List Node) (ds ss fo : List (Addr × Addr)) : Except Err Node :=
   if !(c.starting.all fun l => decide (l ∈ childLabels cs)) then .error .key
   else
-    let c := c.afterAdopt cs
+    let c := if cfg.keepCache then c else c.afterAdopt cs
     let cs := cs.map Node.adopt
     if !(checkStrs (inDom cs) (outDom cs) ds) then .error .key
     else if !(checkStrs (sInDom cs) (sOutDom cs) ss) then .error .key
@@ -340,7 +343,7 @@ def fileLoad (cfg : Cfg) (selfCls : Nat) (p : PNode) : Except Err Node :=
 
 /-! ## observation -/
 
-/-- one line per node: where it is, its record (without live executors and cache), every child
+/-- one line per node: where it is, its record (live executors are not state), every child
 input's data connections in fetch order, every child signal output's connections in firing order -/
 structure Rec where
   path : Path
@@ -351,8 +354,8 @@ structure Rec where
 
 def table (dom : List Addr) (f : Addr → List Addr) : List (Addr × List Addr) := dom.map fun a => (a, f a)
 
-/-- what the statement lists of a node's record: live executors and the cache are not part of it -/
-def Core.seen (c : Core) : Core := { c with exec := c.exec.strip, bodyExec := c.bodyExec.strip, cached := none }
+/-- a node's record as far as it is state: live executors are not -/
+def Core.seen (c : Core) : Core := { c with exec := c.exec.strip, bodyExec := c.bodyExec.strip }
 
 mutual
 def obs (p : Path) : Node → List Rec
